@@ -330,7 +330,8 @@ def p1_pairing(run):
            "BINDING_URI": "use_http_uri"}
     dec = {"BINDING_HTTP_POST": "base64.b64decode(txt)",
            "BINDING_HTTP_REDIRECT": "decode_base64_and_inflate(txt)",
-           "BINDING_SOAP": "func(txt)",
+           "BINDING_SOAP": "getattr(soap, 'parse_soap_enveloped_saml_%s' % "
+                           "msgtype)(txt)",
            "BINDING_HTTP_ARTIFACT": "base64.b64decode(txt)"}
     for b, fn in sorted(enc.items()):
         nodes = [nd for nd, c in acfg.call_nodes(fn)
@@ -350,18 +351,11 @@ def p1_pairing(run):
             if isinstance(s, ast.Assign) and unparse(s.targets[0]) == "xmlstr":
                 gs = facts(ucfg, nd.id)
                 if Q("binding == %s" % b) in gs:
-                    hits.append(unparse(s.value))
+                    hits.append(ucfg.itext(s.value, nd.id))
         run.check(hits == [expr], "P1", "%s::%s" % (un.qual, b),
                   "decoder is %s" % expr,
                   "decoder for %s is %s (encoder: %s)" % (b, hits, enc[b]),
                   un.loc())
-    fsel = [s for s in walk_no_nested(un.node) if isinstance(s, ast.Assign) and
-            unparse(s.targets[0]) == "func"]
-    run.check(len(fsel) == 1 and unparse(fsel[0].value) ==
-              "getattr(soap, 'parse_soap_enveloped_saml_%s' % msgtype)", "P1",
-              un.qual + "::soap-decoder",
-              "SOAP decoder is soap.parse_soap_enveloped_saml_<msgtype>",
-              "SOAP decoder selection changed", un.loc())
     # what the use_* helpers call
     for meth, callee in (("use_http_form_post", "http_form_post_message"),
                          ("use_http_get", "http_redirect_message"),
